@@ -31,6 +31,43 @@ Inductive vtag := TNone | TSkip | TOpts (vs : list validator).
 Record field := mkField { f_name : string; f_yaml : string; f_kind : kind; f_tag : vtag }.
 Definition tables := list (string * list field).
 
+Fixpoint strs_eqb (a b : list string) : bool :=
+  match a, b with
+  | [], [] => true
+  | x :: r, y :: s => String.eqb x y && strs_eqb r s
+  | _, _ => false
+  end.
+Definition validator_eqb (a b : validator) : bool :=
+  match a, b with
+  | VRequired, VRequired | VOptional, VOptional => true
+  | VIn x, VIn y => strs_eqb x y
+  | VType x, VType y => String.eqb x y
+  | VMinLen x, VMinLen y => Z.eqb x y
+  | VNamed x, VNamed y => String.eqb x y
+  | _, _ => false
+  end.
+Definition kind_eqb (a b : kind) : bool :=
+  match a, b with
+  | KStr, KStr | KInt, KInt | KBool, KBool | KFloat, KFloat | KStrs, KStrs => true
+  | KPtr x, KPtr y | KStruct x, KStruct y => String.eqb x y
+  | _, _ => false
+  end.
+Fixpoint validators_eqb (a b : list validator) : bool :=
+  match a, b with
+  | [], [] => true
+  | x :: r, y :: s => validator_eqb x y && validators_eqb r s
+  | _, _ => false
+  end.
+Definition vtag_eqb (a b : vtag) : bool :=
+  match a, b with
+  | TNone, TNone | TSkip, TSkip => true
+  | TOpts x, TOpts y => validators_eqb x y
+  | _, _ => false
+  end.
+Definition field_eqb (a b : field) : bool :=
+  String.eqb (f_name a) (f_name b) && String.eqb (f_yaml a) (f_yaml b) && kind_eqb (f_kind a) (f_kind b) &&
+  vtag_eqb (f_tag a) (f_tag b).
+
 Fixpoint assoc {A} (n : string) (l : list (string * A)) : option A :=
   match l with
   | [] => None
